@@ -295,4 +295,118 @@ theorem modulo_spec (p m : UInt64) (hm : m ≠ 0) :
     refine (modulo_unique hm p ⟨q, ?_⟩ hr).symm
     rw [hqr, Nat.xor_comm r, Nat.xor_assoc, Nat.xor_self, Nat.xor_zero]
 
+/-- **F1.** `modulo · m` is linear. -/
+theorem modulo_xor {m : UInt64} (hm : m ≠ 0) (a b : UInt64) :
+    modulo (a ^^^ b) m = modulo a m ^^^ modulo b m := by
+  rw [← UInt64.toNat_inj]
+  apply modulo_unique hm
+  · rw [UInt64.toNat_xor, UInt64.toNat_xor]
+    exact (modulo_cong hm a).xor (modulo_cong hm b)
+  · rw [UInt64.toNat_xor]
+    exact Nat.xor_lt_two_pow (modulo_lt hm a) (modulo_lt hm b)
+
+/-- **F2.** Reduced values are fixed. -/
+theorem modulo_of_lt {m : UInt64} (hm : m ≠ 0) {a : UInt64} (ha : a.toNat < 2 ^ m.toNat.log2) :
+    modulo a m = a := by
+  rw [← UInt64.toNat_inj]
+  exact modulo_unique hm a (Cong.refl _ _) ha
+
+/-! ## Part 3: `hashBlock` is the remainder of the byte string -/
+
+/-- The byte string read as a big-endian number / polynomial over GF(2). -/
+def bytesPoly (bs : Bytes) : Nat := bs.foldl (fun acc b => acc * 256 + b.toNat) 0
+
+theorem shiftLeft_or_eq_xor {b k : Nat} (a : Nat) (hb : b < 2 ^ k) : a <<< k ||| b = a <<< k ^^^ b := by
+  apply Nat.eq_of_testBit_eq
+  intro i
+  rw [Nat.testBit_or, Nat.testBit_xor, Nat.testBit_shiftLeft]
+  by_cases h : i ≥ k
+  · have : b.testBit i = false :=
+      Nat.testBit_lt_two_pow (Nat.lt_of_lt_of_le hb (Nat.pow_le_pow_right (by omega) h))
+    simp [this]
+  · simp [h]
+
+theorem mul_256_add_eq_xor (a : Nat) (v : UInt8) : a * 256 + v.toNat = a <<< 8 ^^^ v.toNat := by
+  have hv : v.toNat < 2 ^ 8 := v.toNat_lt
+  rw [← shiftLeft_or_eq_xor a hv, ← Nat.shiftLeft_add_eq_or_of_lt hv, Nat.shiftLeft_eq]
+
+/-- Appending one byte: `h·x⁸ + v` on `UInt64` without overflow when `h` is reduced and `deg ≤ 56`. -/
+theorem push_toNat {h : UInt64} {d : Nat} (hd : d ≤ 56) (hh : h.toNat < 2 ^ d) (v : UInt8) :
+    ((h <<< 8) ||| v.toUInt64).toNat = h.toNat <<< 8 ^^^ v.toNat := by
+  have hv : v.toNat < 2 ^ 8 := v.toNat_lt
+  rw [UInt64.toNat_or, UInt64.toNat_shiftLeft, UInt8.toNat_toUInt64]
+  have e8 : (8 : UInt64).toNat % 64 = 8 := by decide
+  rw [e8, Nat.mod_eq_of_lt, shiftLeft_or_eq_xor _ hv]
+  exact Nat.lt_of_lt_of_le (shiftLeft_lt_two_pow hh) (Nat.pow_le_pow_right (by omega) (by omega))
+
+theorem shl8_toNat {h : UInt64} {d : Nat} (hd : d ≤ 56) (hh : h.toNat < 2 ^ d) :
+    (h <<< 8).toNat = h.toNat <<< 8 := by
+  rw [UInt64.toNat_shiftLeft]
+  have e8 : (8 : UInt64).toNat % 64 = 8 := by decide
+  rw [e8, Nat.mod_eq_of_lt]
+  exact Nat.lt_of_lt_of_le (shiftLeft_lt_two_pow hh) (Nat.pow_le_pow_right (by omega) (by omega))
+
+section
+variable {poly : UInt64} (hp : poly ≠ 0) (hd : poly.toNat.log2 ≤ 56)
+include hp hd
+
+theorem hashFold_spec (bs : Bytes) : ∀ (h : UInt64) (acc : Nat),
+    h.toNat < 2 ^ poly.toNat.log2 → Cong poly.toNat h.toNat acc →
+    (bs.foldl (fun h v => modulo ((h <<< 8) ||| v.toUInt64) poly) h).toNat < 2 ^ poly.toNat.log2 ∧
+    Cong poly.toNat (bs.foldl (fun h v => modulo ((h <<< 8) ||| v.toUInt64) poly) h).toNat
+      (bs.foldl (fun acc b => acc * 256 + b.toNat) acc) := by
+  induction bs with
+  | nil => intro h acc hh hc; exact ⟨hh, hc⟩
+  | cons v bs ih =>
+    intro h acc hh hc
+    simp only [List.foldl_cons]
+    apply ih
+    · exact modulo_lt hp _
+    · refine (modulo_cong hp _).trans ?_
+      rw [push_toNat hd hh, mul_256_add_eq_xor]
+      exact (hc.shiftLeft 8).xor (Cong.refl _ _)
+
+theorem hashBlock_lt (bs : Bytes) : (hashBlock poly bs).toNat < 2 ^ poly.toNat.log2 :=
+  (hashFold_spec hp hd bs 0 0 (Nat.two_pow_pos _) (Cong.refl _ _)).1
+
+theorem hashBlock_cong (bs : Bytes) : Cong poly.toNat (hashBlock poly bs).toNat (bytesPoly bs) :=
+  (hashFold_spec hp hd bs 0 0 (Nat.two_pow_pos _) (Cong.refl _ _)).2
+
+/-- Anything reduced and congruent to the byte polynomial is the fingerprint. -/
+theorem hashBlock_unique (bs : Bytes) {r : UInt64} (hr : r.toNat < 2 ^ poly.toNat.log2)
+    (hc : Cong poly.toNat r.toNat (bytesPoly bs)) : r = hashBlock poly bs := by
+  have hp' : poly.toNat ≠ 0 := fun h' => hp ((toNat_eq_zero_iff poly).mp h')
+  rw [← UInt64.toNat_inj]
+  exact Cong.eq_of_lt hp' (hc.trans (hashBlock_cong hp hd bs).symm) hr (hashBlock_lt hp hd bs)
+
+end
+
+theorem bytesFold_eq (w : Bytes) : ∀ acc : Nat,
+    w.foldl (fun acc b => acc * 256 + b.toNat) acc = acc <<< (8 * w.length) ^^^ bytesPoly w ∧
+    bytesPoly w < 2 ^ (8 * w.length) := by
+  induction w with
+  | nil => intro acc; simp [bytesPoly]
+  | cons b w ih =>
+    intro acc
+    have h0 : bytesPoly (b :: w) = b.toNat <<< (8 * w.length) ^^^ bytesPoly w := by
+      have := (ih b.toNat).1
+      simpa [bytesPoly] using this
+    have hb : b.toNat < 2 ^ 8 := b.toNat_lt
+    have hlen : 8 * (b :: w).length = 8 + 8 * w.length := by simp; omega
+    constructor
+    · rw [List.foldl_cons, (ih _).1, h0, mul_256_add_eq_xor, Nat.shiftLeft_xor_distrib,
+        ← Nat.shiftLeft_add, hlen, Nat.xor_assoc]
+    · rw [h0, hlen]
+      apply Nat.xor_lt_two_pow (shiftLeft_lt_two_pow hb)
+      exact Nat.lt_of_lt_of_le (ih 0).2 (Nat.pow_le_pow_right (by omega) (by omega))
+
+theorem bytesPoly_cons (b : UInt8) (w : Bytes) :
+    bytesPoly (b :: w) = b.toNat <<< (8 * w.length) ^^^ bytesPoly w := by
+  have := (bytesFold_eq w b.toNat).1
+  simpa [bytesPoly] using this
+
+theorem bytesPoly_append_singleton (w : Bytes) (b : UInt8) :
+    bytesPoly (w ++ [b]) = bytesPoly w <<< 8 ^^^ b.toNat := by
+  simp [bytesPoly, List.foldl_append, mul_256_add_eq_xor]
+
 end Rustic.Rabin
